@@ -443,14 +443,41 @@ pub fn echo_pub(ctl: &Control, srv: Box<dyn Rw>, cli: Box<dyn Rw>, size: usize, 
 }
 
 /// Writes `size` bytes from each side and reads them on the other, delivering `chunk` bytes at a time.
-fn echo(ctl: &Control, mut srv: Box<dyn Rw>, mut cli: Box<dyn Rw>, size: usize, chunk: usize) -> Result<(), String> {
+fn echo(ctl: &Control, srv: Box<dyn Rw>, cli: Box<dyn Rw>, size: usize, chunk: usize) -> Result<(), String> {
+    echo_v(ctl, srv, cli, size, chunk, 0)
+}
+
+/// `slice`: 0 = `write_all`; otherwise the payload is written with `write_vectored`, as slices of
+/// that many bytes, resubmitting the unwritten rest after every partial write.
+fn echo_v(ctl: &Control, mut srv: Box<dyn Rw>, mut cli: Box<dyn Rw>, size: usize, chunk: usize, slice: usize) -> Result<(), String> {
     for dir in 0..2 {
         let payload: Vec<u8> = (0..size).map(|i| (i as u32).wrapping_mul(2654435761).to_le_bytes()[1] ^ dir as u8).collect();
         let (w, r): (&mut Box<dyn Rw>, &mut Box<dyn Rw>) = if dir == 0 { (&mut cli, &mut srv) } else { (&mut srv, &mut cli) };
         let mut got = vec![0u8; size];
         let p2 = payload.clone();
         let mut wfut = Box::pin(async move {
-            w.write_all(&p2).await?;
+            if slice == 0 {
+                w.write_all(&p2).await?;
+            } else {
+                let mut off = 0usize;
+                while off < p2.len() {
+                    let mut ios: Vec<std::io::IoSlice<'_>> = vec![];
+                    let mut skip = off;
+                    for ch in p2.chunks(slice) {
+                        if skip >= ch.len() {
+                            skip -= ch.len();
+                            continue;
+                        }
+                        ios.push(std::io::IoSlice::new(&ch[skip..]));
+                        skip = 0;
+                    }
+                    let n = w.write_vectored(&ios).await?;
+                    if n == 0 {
+                        return Err(io::Error::new(io::ErrorKind::WriteZero, "write_vectored wrote nothing"));
+                    }
+                    off += n;
+                }
+            }
             w.flush().await
         });
         let mut rfut = Box::pin(async { if size == 0 { Ok(0) } else { r.read_exact(&mut got).await } });
@@ -957,8 +984,11 @@ pub fn run(args: &Args) -> i32 {
         let rt = tokio::runtime::Builder::new_current_thread().enable_all().start_paused(true).build().unwrap();
         for kind in [Kind::Rustls, Kind::Openssl] {
             for size in [0usize, 1, 16383, 16384, 16385, 65536] {
-                for (chunk, capacity) in [(usize::MAX, 0usize), (4096, 0), (1, 0), (usize::MAX, 4096), (usize::MAX, 1000), (333, 1000), (usize::MAX, 1)] {
+                for (chunk, capacity, vectored) in [(usize::MAX, 0usize, 0usize), (4096, 0, 0), (1, 0, 0), (usize::MAX, 4096, 0), (usize::MAX, 1000, 0), (333, 1000, 0), (usize::MAX, 1, 0), (usize::MAX, 0, 4096), (usize::MAX, 4096, 4096), (usize::MAX, 1000, 4096), (333, 1000, 1000), (usize::MAX, 4096, 1)] {
                     if (chunk == 1 || capacity == 1) && size > 16385 && args.tier == mcutil::Tier::Quick {
+                        continue;
+                    }
+                    if vectored == 1 && size > 16385 {
                         continue;
                     }
                     payload_runs += 1;
@@ -979,9 +1009,11 @@ pub fn run(args: &Args) -> i32 {
                             // back-pressure: the transport takes at most `capacity` unread bytes
                             pair.ctl.set_capacity(0, capacity);
                             pair.ctl.set_capacity(1, capacity);
-                            if let Err(e) = echo(&pair.ctl, s, c, size, chunk) {
+                            let r = if vectored == 0 { echo(&pair.ctl, s, c, size, chunk) } else { echo_v(&pair.ctl, s, c, size, chunk, vectored) };
+                            if let Err(e) = r {
+                                let e = if vectored == 0 { e } else { format!("{e} (written with write_vectored, slices of {vectored} bytes)") };
                                 let sig = if capacity == 0 { format!("C18:data-not-intact:{k}") } else { format!("C18:data-not-intact:{k}:transport-with-back-pressure") };
-                                bag.add(&sig.clone(), || Violation { signature: sig.clone(), summary: format!("{e} (delivered in pieces of {chunk}, transport capacity {capacity} (0 = unbounded); the connection stays open after write_all + flush)"), replay: json!({"part": "payload", "kind": k, "size": size, "chunk": chunk, "capacity": capacity}) });
+                                bag.add(&sig.clone(), || Violation { signature: sig.clone(), summary: format!("{e} (delivered in pieces of {chunk}, transport capacity {capacity} (0 = unbounded); the connection stays open after write_all + flush)"), replay: json!({"part": "payload", "kind": k, "size": size, "chunk": chunk, "capacity": capacity, "vectored": vectored}) });
                             }
                         }
                         other => {
